@@ -53,7 +53,7 @@ PrevCutsOK ==
 (* C13: a mined block's transaction order is the pool's own; it must respect dependencies and anti-dependencies,
    and a replica that never saw the transactions must reach the producer's state (judged at the pfm event, in its
    pre-state: the block is already part of blk) *)
-MinedOrderOK(ev) == ~(ev.op = "mkblock" /\ Has(ev, "mined")) \/ KF_PoolOrderAntiDep \/ PoolOrderOK(ev.txs)
+MinedOrderOK(ev) == ~(ev.op = "mkblock" /\ Has(ev, "mined")) \/ (KF_PoolOrderAntiDep /\ ~PoolOrderOK(ev.txs)) \/ PackedOK(ev.txs)
 ReplicaOK(ev) ==
   ~(ev.op = "pfm" /\ Has(ev, "replica")) \/
   \E e \in {ReplicaObs(ev.b)} :
